@@ -31,6 +31,8 @@ var faultSites = []string{
 	// there the unlock step succeeds and the property has nothing to say.)
 	"relocked-account-no-passphrases",
 	"rules-unknown", "rules-failed", "rules-denied", "rules-short", "rules-empty",
+	// the ruler itself answers with no verdicts at all (the endpoints that expect exactly one index the list)
+	"ruler-empty",
 	"store-fetch-error", "store-write-error", "store-write-error-behind-refused-entry", "record-wrong-length", "record-undecodable", "record-empty", "record-one-byte", "store-closed",
 	"sign-error", "domain-31-bytes", "domain-33-bytes", "data-31-bytes",
 	// every entry from the position to the end of the batch carries the same unusable input
@@ -188,6 +190,9 @@ func runFaultMatrix(t *testing.T, rc *RunCtx) {
 		})
 	case "rules-unknown", "rules-failed", "rules-denied":
 		plan.Set("rules", kn, fc.Site[6:])
+	case "ruler-empty":
+		plan.Set("ruler", kn, "empty")
+		whole = true
 	case "rules-short":
 		plan.Set("rules", kn, "short")
 		e = &o.Entries[len(o.Entries)-1]
@@ -291,6 +296,12 @@ func runFaultMatrix(t *testing.T, rc *RunCtx) {
 		return
 	}
 	r := w.res[0]
+	if r != nil && r.Panic != "" && fc.Site == "ruler-empty" && (fc.Kind == "att" || fc.Kind == "prop" || fc.Kind == "gen") {
+		// The endpoints that expect one verdict index an empty list: the request dies in a panic, nothing is released (the real
+		// ruler never answers with an empty list; C06 asks for no signature, which a panic delivers).
+		rc.Stats.Inc("matrix_empty_result_list_ended_in_a_panic_without_signature", 1)
+		return
+	}
 	if r != nil && r.Panic != "" {
 		// the request ended in a panic on the handler's goroutine: with no recovery in the gRPC server that is the
 		// daemon's death, under a fault that a daemon is meant to answer with "no"
